@@ -486,17 +486,35 @@ def run_scenario(case: dict[str, Any], ctx: Ctx) -> None:
     lay = case["layout"]
     # quick tier: SQLite schedules are expensive (three storage objects per schedule), journal-file
     # ones moderately; the in-memory / fakeredis thread layouts are enumerated completely
-    limit = (24 if "sqlite" in lay else 50 if "journal_file" in lay else 160 if lay.startswith("procs:journal_redis") else 600) if ctx.tier == "quick" else 100000
-    for p in conc.switch_points(n, len(case["workers"]), limit, case["salt"]):
-        one(p)
+    limit = (24 if "sqlite" in lay else 50 if "journal_file" in lay else 100 if lay.startswith("procs:journal_redis") else 300 if "journal_redis" in lay else 600) if ctx.tier == "quick" else 100000
+    pts = conc.switch_points(n, len(case["workers"]), limit, case["salt"])
+    if "sqlite" in lay and ctx.tier == "quick":
+        # quick tier on the SQLite layouts: every preemption next to an SQL statement / commit
+        # (those decide what the other connection sees) plus a thin stride over all source lines
+        sqlp = conc.sql_switch_points(n, len(case["workers"]), 70, case["salt"])
+        others = max(1, len(case["workers"]) - 1)
+        relp = [{r: (i + case["salt"]) % others} for i, r in enumerate(sorted(set(LAST_RELEASES))[:25]) if r < n]
+        pts = sqlp + [p for p in relp if p not in sqlp] + [p for p in pts if p not in sqlp and p not in relp][:8]
+        ctx.event("sql_boundary_preemptions", len(sqlp))
+        ctx.event("lock_release_preemptions", len(relp))
+    import time as _time
+
+    t_end = _time.monotonic() + (30.0 if ctx.tier == "quick" and not case.get("pairs") else 1e9)
+    done = 0
     for sched_ in case["multi"]:
         one({min(int(f * n), n - 1): c for f, c in sched_})
+    for p in pts:
+        if _time.monotonic() > t_end:
+            ctx.event("schedules_not_run_time_cap", len(pts) - done)
+            break
+        one(p)
+        done += 1
     if lay in ("threads:inmemory", "threads:journal_redis") and case.get("pairs"):
         # two preemptions: the first right after a lock release (the worker has left its critical
         # section but not yet used what it computed there), the second anywhere later
         rel = list(LAST_RELEASES)[:10]
         total = sum(n - r for r in rel)
-        stride = max(1, -(-total // (150 if ctx.tier == "quick" else 100000)))
+        stride = max(1, -(-total // (100 if ctx.tier == "quick" else 100000)))
         for r in rel:
             for s2 in range(r + 1 + (r % stride), n, stride):
                 one({r: 0, s2: 0})
@@ -528,6 +546,9 @@ CLASSIC = [
     # worker, against another worker's create: the rejected call may not hide the other's write
     ("rejected write, read / create", ["complete"], [[["ss", 0, "FAIL", 0], ["gat", 0], ["gat", 0]], [["ct", 0]]]),
     ("rejected create-study, read / create", ["running"], [[["cs", "base"], ["gat", 0], ["gat", 0]], [["ct", 0]]]),
+    # a snapshot against "finish an old trial, then create a new one": the snapshot may not hold
+    # the new trial together with the old one still unfinished
+    ("snapshot / finish old, create new", ["running"], [[["gat", 0]], [["ss", 0, "COMPLETE", 1], ["ct", 0], ["ss", "mine", "FAIL", 0]]]),
 ]
 
 
@@ -540,7 +561,7 @@ def enum_classic(ctx: Ctx, tier: str, shard: int, nshards: int) -> None:
         ctx.sub = "classic"
         run_scenario(case, ctx)
         ctx.event("classic:" + name)
-    ctx.exhaustive_parts.append("the fifteen classic races on all twelve layouts: every single-preemption schedule on the thread layouts in-memory and fakeredis (quick tier: 160 / 50 / 24 sampled switch points on the 'process' fakeredis / journal-file / SQLite layouts, a rotating stride so that a window wider than the stride is always hit; thorough tier: all)")
+    ctx.exhaustive_parts.append("the sixteen classic races on all twelve layouts: every single-preemption schedule on the in-memory layout (quick tier: every second yield point on the fakeredis thread layout, 100 / 50 sampled switch points on the 'process' fakeredis / journal-file layouts, every SQL-statement / commit / lock-release boundary plus 8 sampled points on the SQLite layouts, a rotating stride so that a window wider than the stride is always hit; thorough tier: all)")
 
 
 CHECKS = [
